@@ -57,7 +57,7 @@ SPECS = {
 
 TIERS = {
     "quick": dict(count=400, max_ops=50, max_sess=7, seeds=1, kernel_cases=12),
-    "thorough": dict(count=4000, max_ops=90, max_sess=10, seeds=3, kernel_cases=150),
+    "thorough": dict(count=2500, max_ops=90, max_sess=10, seeds=3, kernel_cases=100),
 }
 
 
